@@ -104,6 +104,15 @@ def filtOptC (keep : Match → σ → Except Abort Bool × σ) :
     | (.ok true, st) => filtOptC keep ms (acc ++ [m]) st
     | (.ok false, st) => filtOptC keep ms acc st
 
+/-- `ruleKeep` with the cache state threaded through the run of the excluded rule -/
+def ruleKeepC (sub : List Nat → Nat → σ → Res × σ) (excl : Option Nat) (m : Match) (st : σ) :
+    Except Abort Bool × σ :=
+  match excl with
+  | none => (.ok true, st)
+  | some x =>
+    let (r, st) := sub m.text x st
+    (exclChk r m.text.length, st)
+
 def lparseC (ops : CacheOps σ) (G : Grammar) : Nat → Src → Expr → Nat → σ → Res × σ
   | 0, _, _, _, st => (.oof, st)
   | f + 1, s, e, i, st =>
@@ -123,13 +132,8 @@ def lparseC (ops : CacheOps σ) (G : Grammar) : Nat → Src → Expr → Nat →
         | some d =>
           match lparseC ops G f s d i st with
           | (.ok ms, st) =>
-            match filtOptC (fun m st => match info.excl with
-                | none => (.ok true, st)
-                | some x =>
-                  let (r, st) := lparseC ops G f m.text (.ref x) 0 st
-                  (exclChk r m.text.length, st)) ms [] st with
-            | (.error a, st) => (a.toRes, st)
-            | (.ok kept, st) => (wrapRule info.name kept, st)
+            let (kept, st) := filtOptC (ruleKeepC (fun t x st => lparseC ops G f t (.ref x) 0 st) info.excl) ms [] st
+            (ruleFinish info.name kept, st)
           | r => r
 
 end Abnf
